@@ -273,6 +273,9 @@ def check(run):
                 j[rng.randrange(min(len(j), 28))] = rng.randrange(256)
         if rng.random() < .2:
             j = bytearray(rng.randrange(256) for _ in range(rng.randint(0, 40)))
+        elif n % 3 == 0 and len(j) >= 24:
+            # the sector size field at its boundaries (tiny, off by one around 512 and 65536, powers of two, huge)
+            j[20:24] = rng.choice([0, 1, 2, 4, 8, 16, 27, 28, 29, 64, 511, 512, 513, 1024, 65535, 65536, 65537, 2 ** 31 - 1, 2 ** 31, 2 ** 32 - 1]).to_bytes(4, "big")
         jl.append(("j/%d" % n, "journal " + (bytes(j).hex() or "-")))
         dist["journals"] += 1
     res, impl, model = ops.run_cmds("c05-journal", jl, timeout=300)
